@@ -471,6 +471,12 @@ def make_other(cfg):
     kw = dict(_torchrl_mode=True) if cfg.get("torchrl") else {}
     if name == "fjsp":
         gp = dict(num_jobs=cfg["jobs"], num_machines=cfg["mas"], min_ops_per_job=cfg["min_ops"], max_ops_per_job=cfg["max_ops"], max_processing_time=cfg.get("pmax", 9), **({"min_processing_time": cfg["pmin"]} if "pmin" in cfg else {}))
+        if "same_mean" in cfg:  # documented generator switches no default config sets: independent processing times, eligibility range
+            gp["same_mean_per_op"] = cfg["same_mean"]
+        if "max_elig" in cfg:
+            gp["max_eligible_ma_per_op"] = cfg["max_elig"]
+        if "min_elig" in cfg:
+            gp["min_eligible_ma_per_op"] = cfg["min_elig"]
         return E.FJSPEnv(generator_params=gp, mask_no_ops=cfg["mask_no_ops"], **_js_opts(cfg), **kw)
     if name == "jssp":
         gp = dict(num_jobs=cfg["jobs"], num_machines=cfg["mas"], max_processing_time=cfg.get("pmax", 9), one2one_ma_map=cfg["one2one"], **({"min_processing_time": cfg["pmin"]} if "pmin" in cfg else {}))
